@@ -7,6 +7,7 @@ iteration order therefore is a cube constant (a permutation of hash priorities),
 import itertools
 
 from engine.sym import exc_tag
+from engine import chconf
 from model.family import build, sim_kwargs
 from model.observe import dump, concrete_sig
 from model.stubs import STUB_NOTES
@@ -32,7 +33,7 @@ def scan_unordered():
     import glob
 
     found = []
-    for fn in sorted(glob.glob("/repo/pDESy/model/*.py")):
+    for fn in sorted(glob.glob(chconf.REPO + "/pDESy/model/*.py")):
         tree = ast.parse(open(fn).read())
         for node in ast.walk(tree):
             kind = None
